@@ -58,6 +58,7 @@ def gen(rng, tier):
 
     # text round trip and construction equivalence, single tokens and pairs
     seqs = [[]] + [[t] for t in pool] + [[a, b] for a in UNITS + ["", "01", "-1"] for b in UNITS + ["", "01", "-1"]]
+    seqs += [["", "", "a"], ["", ""], ["", "", ""], ["", "a", ""], ["a", "", ""]]
     nrand = 3000 if tier == "thorough" else 300
     for _ in range(nrand):
         seqs.append([rng.choice(pool) for _ in range(rng.randint(1, 4))])
@@ -77,9 +78,15 @@ def gen(rng, tier):
             yield {"e1": ["join", ["parse", True, base], ts[-1]], "e2": ["parse", True, text], "doc": doc()}
             yield {"e1": ["div", ["parse", True, base], "/" + ts[-1]], "e2": ["parse", True, "/" + ts[-1]], "doc": doc()}
             yield {"e1": ["parent", ["parse", True, text]], "e2": ["parse", True, base], "doc": doc()}
+            # an absolute part (several tokens, empty ones included) replaces the base
+            yield {"e1": ["div", ["parse", True, "/" + ts[0]], text], "e2": ["parse", True, text], "doc": doc()}
+            yield {"e1": ["join", ["parse", True, "/x"], ts[0], text], "e2": ["parse", True, text], "doc": doc()}
     yield {"e1": ["parent", ["parse", True, ""]], "e2": ["parse", True, ""], "doc": doc()}
     # chains of join/parent
     for _ in range(4000 if tier == "thorough" else 400):
+        def abs_part():
+            return "".join("/" + (rng.choice(pool) if rng.random() < 0.6 else "") for _ in range(rng.randint(1, 3)))
+
         def chain():
             e = ["parse", True, "".join("/" + rng.choice(pool) for _ in range(rng.randint(0, 2)))]
             for _ in range(rng.randint(1, 4)):
@@ -87,9 +94,9 @@ def gen(rng, tier):
                 if r < 0.3:
                     e = ["parent", e]
                 elif r < 0.7:
-                    e = ["div", e, rng.choice(pool) if rng.random() < 0.85 else "/" + rng.choice(pool)]
+                    e = ["div", e, rng.choice(pool) if rng.random() < 0.8 else abs_part()]
                 else:
-                    e = ["join", e] + [rng.choice(pool) for _ in range(rng.randint(1, 2))]
+                    e = ["join", e] + [rng.choice(pool) if rng.random() < 0.85 else abs_part() for _ in range(rng.randint(1, 2))]
             return e
         e1 = chain()
         e2 = chain() if rng.random() < 0.5 else ["parent", e1]
